@@ -212,14 +212,29 @@ class SmartList(list):
 def _detach_for_move(new_parent, obj):
     """
     Prepares moving *obj* into the child-list of *new_parent*.
-    If *obj* is still a child of another parent, it is removed from there
-    so that it is never listed twice.
+    A Section cannot become a child of itself or of one of its own sub-Sections;
+    a ValueError is raised in this case. If *obj* is still a child of another
+    parent, it is removed from there so that it is never listed twice.
 
     :param new_parent: odML Document or Section that will contain *obj*.
     :param obj: odML Section or Property.
     """
+    _check_not_own_subtree(new_parent, obj)
+
     if obj.parent is not None:
         obj.parent.remove(obj)
+
+
+def _check_not_own_subtree(new_parent, obj):
+    """
+    Raises a ValueError if *new_parent* is *obj* itself or lies below *obj*.
+    """
+    node = new_parent
+    while node is not None:
+        if node is obj:
+            raise ValueError("Cannot add '%s' to itself or to one of its own children." %
+                             obj.name)
+        node = node.parent
 
 
 @allow_inherit_docstring
